@@ -190,7 +190,62 @@ def check_malformed(case):
     raise Violation(f"inconsistent shapes orientations {so} / fractions {sf} were accepted")
 
 
+def shape_case():
+    """Shape pairs from a grammar instead of a list: ranks 0..5 with dimensions biased towards
+    3 (so that grain counts and snapshot counts collide with the trailing 3x3), plus exact
+    consistent pairs."""
+    dim = st.sampled_from([3, 3, 3, 1, 2, 4, 5, 9])
+    return st.fixed_dictionaries(
+        {
+            "so": st.lists(dim, min_size=0, max_size=5),
+            "sf": st.lists(dim, min_size=0, max_size=3),
+            "tie": st.sampled_from(["none", "none", "prefix2", "prefix1", "consistent"]),
+            "seed": gen.small_seed,
+            "n_samples": st.one_of(st.none(), st.integers(1, 5), st.just(3)),
+        }
+    )
+
+
+def check_shapes(case):
+    so, sf = list(case["so"]), list(case["sf"])
+    if case["tie"] == "prefix2" and len(so) >= 2:
+        sf = so[:2]  # fractions agree with the two leading dimensions, whatever follows
+    elif case["tie"] == "prefix1" and len(so) >= 1:
+        sf = so[:1] + sf[1:2]
+    elif case["tie"] == "consistent":
+        so = (so + [3, 3])[:2] + [3, 3]
+        sf = so[:2]
+    so, sf = tuple(so), tuple(sf)
+    consistent = len(so) == 4 and so[2:] == (3, 3) and sf == so[:2]
+    rng = np.random.default_rng(case["seed"])
+    o = rng.uniform(-1, 1, size=so)
+    f = rng.uniform(0.1, 1, size=sf)
+    if f.ndim >= 1:
+        f = f / f.sum(axis=-1, keepdims=True)
+    kw = {} if case["n_samples"] is None else {"n_samples": case["n_samples"]}
+    label = "consistent" if consistent else f"rank{len(so)}/{len(sf)}"
+    try:
+        oA, of = S.resample_orientations(o, f, seed=1, **kw)
+    except ValueError:
+        require(not consistent, f"consistent shapes {so}/{sf} were rejected with ValueError")
+        return {"nontrivial": True, "labels": [label, "threes" if so.count(3) >= 3 else "few_threes"], "residual": 0.0}
+    except Exception as e:  # noqa: BLE001
+        raise Violation(f"shapes {so}/{sf}: raised {type(e).__name__} instead of ValueError: {e}")
+    require(consistent, f"inconsistent shapes orientations {so} / fractions {sf} were accepted (n_samples={case['n_samples']})")
+    n_out = so[1] if case["n_samples"] is None else case["n_samples"]
+    require(oA.shape == (so[0], n_out, 3, 3) and of.shape == (so[0], n_out), f"output shapes {oA.shape}/{of.shape} for input {so}/{sf}")
+    return {"nontrivial": True, "labels": [label], "residual": 0.0}
+
+
 ORACLES = [
+    Oracle(
+        "generated_shapes",
+        shape_case(),
+        check_shapes,
+        classify=lambda c: "any",
+        quick=1500,
+        thorough=20000,
+    ),
     Oracle("membership_shape_seed", stack_case(), check_membership, quick=250, thorough=4000),
     Oracle("distribution", dist_case(), check_distribution, quick=40, thorough=600),
     Oracle(
